@@ -46,7 +46,7 @@ func (g *Gen) call(site ssa.Value, cc *ssa.CallCommon, pos token.Pos) *Val {
 	if v, handled := g.eng.specialCall(g, callee, cc, args, resT, pos); handled {
 		return v
 	}
-	ct := g.eng.contractFor(callee)
+	ct := g.eng.contractForView(callee, g.view)
 	if ct == nil {
 		return g.havocCall(funcKey(callee), resT, pos)
 	}
@@ -123,7 +123,7 @@ func (g *Gen) havocCall(key string, resT types.Type, pos token.Pos) *Val {
 	g.assumeRaw(fmt.Sprintf("(>= %s %s)", n, g.nextobj))
 	g.nextobj = n
 	for k := range g.ghost {
-		g.ghost[k] = g.freshConst("gh_"+k, g.eng.ghostSort(k))
+		g.ghost[k] = g.freshConst("gh_"+k, g.ghostSortOf(k))
 	}
 	v := g.havocVal(resT, "r_"+sanitize(key))
 	g.assumeRaw(g.wellFormedResult(v))
@@ -226,10 +226,18 @@ func (g *Gen) applyContract(ct *Contract, names []string, args []*Val, sig *type
 			if n := sig.Results().At(i).Name(); n != "" && n != "_" {
 				post.vars[n] = t
 			}
+			if isErrorType(sig.Results().At(i).Type()) {
+				if _, taken := post.vars["err"]; !taken {
+					post.vars["err"] = t
+				}
+			}
 		}
 	} else if sig.Results().Len() == 1 {
 		post.vars["result"] = res
 		post.vars["result0"] = res
+		if isErrorType(sig.Results().At(0).Type()) {
+			post.vars["err"] = res
+		}
 		if n := sig.Results().At(0).Name(); n != "" && n != "_" {
 			post.vars[n] = res
 		}
